@@ -46,6 +46,9 @@ type c20Plan struct {
 	Seed   uint64     `json:"seed"`
 	Forks  string     `json:"forks"`
 	Blocks []c20Block `json:"blocks"`
+	// Dual: the parent state holds one node id in BOTH registries (as a genesis whose proposer is also on the
+	// validator list produces: InsertMiner only looks at the registry of the record's own type)
+	Dual bool `json:"dual,omitempty"`
 }
 
 type c20 struct{}
@@ -68,7 +71,7 @@ func (c20) Describe() runner.Description {
 		Assumptions: []string{"the ledger does not predict acceptance (minimum stakes, status transitions are the implementation's); it observes receipts and rules only on double control of an account and refunds above the stake", "the sender's nonce bump of a failed transaction is transaction bookkeeping, not registry/stake accounting"},
 		Real:        []string{"executor (miner apply/add/refund/change-account, operator)", "service MinerManager / RefundManager / RewardCalculator", "core/vmexecutor", "storage/account + trie on goleveldb over simulated storage"},
 		Stub:        []string{"ConsensusHelper", "network", "NTP clock"},
-		FaultKinds:  []string{"map_order_seed", "restart_between_blocks", "height_jump_to_escrow_release"},
+		FaultKinds:  []string{"map_order_seed", "restart_between_blocks", "height_jump_to_escrow_release", "node_id_in_both_registries"},
 	}
 }
 
@@ -134,6 +137,12 @@ func (c20) Gen(seed uint64, tier string) json.RawMessage {
 		nb = r.Range(9, 14)
 	}
 	k := 0
+	if r.Chance(0.06) {
+		p.Dual = true
+		p.Blocks = append(p.Blocks,
+			c20Block{Txs: []node.TxSpec{{K: "addstake", From: 7, Miner: 3, Stake: uint64(r.Range(100, 900)), Salt: "du-s"}}},
+			c20Block{Txs: []node.TxSpec{{K: "refund", From: 7, Miner: 3, Amount: []string{"100", "500", "550"}[r.Intn(3)], Salt: "du-r"}}})
+	}
 	if r.Chance(0.15) {
 		// a miner that a partial refund leaves dismissed with some stake still recorded, then touched again by
 		// its owner (change of account / further refund / add-stake), each transaction alone in its block
@@ -169,6 +178,18 @@ func (c20) Gen(seed uint64, tier string) json.RawMessage {
 			k++
 		}
 		p.Blocks = append(p.Blocks, blk)
+	}
+	if p.Dual {
+		// the twin records of the dual id are only touched by the two scripted transactions: once one twin is
+		// dismissed or removed the other becomes "the" miner of that id, which the one-record ledger does not model
+		for bi := range p.Blocks {
+			for ti := range p.Blocks[bi].Txs {
+				t := &p.Blocks[bi].Txs[ti]
+				if t.Miner == 3 && !strings.HasPrefix(t.Salt, "du-") {
+					t.Miner = 2
+				}
+			}
+		}
 	}
 	b, _ := json.Marshal(p)
 	return b
@@ -239,6 +260,26 @@ func (c20) Exec(raw json.RawMessage, st *simrt.Stats, log *simrt.Log) *simrt.Vio
 		return simrt.Violationf("C20", clause, where, ev, f, a...)
 	}
 
+	if p.Dual {
+		common.SetBlockHeight(ec.height)
+		s0 := ec.state()
+		acc := common.FromHex(node.Account(7))
+		for _, rec := range []*types.Miner{
+			{Id: node.MinerID(3), Type: common.MinerTypeValidator, Stake: 600, Account: acc, PublicKey: []byte{1, 2, 3, 3}, VrfPublicKey: []byte{4, 5, 6, 3}, Status: common.MinerStatusNormal},
+			{Id: node.MinerID(3), Type: common.MinerTypeProposer, Stake: 3000, Account: acc, PublicKey: []byte{1, 2, 3, 3}, VrfPublicKey: []byte{4, 5, 6, 3}, Status: common.MinerStatusNormal},
+		} {
+			service.MinerManagerImpl.InsertMiner(rec, s0)
+		}
+		root, err := s0.Commit(true)
+		if err == nil {
+			err = middleware.AccountDBManagerInstance.GetTrieDB().Commit(root, false)
+		}
+		if err != nil {
+			panic(runner.InfraError{Msg: "c20 dual-registry setup: " + err.Error()})
+		}
+		ec.root = root
+		st.Fault("node_id_in_both_registries")
+	}
 	// ledger, initialised by observing the genesis registry
 	led := map[string]*c20Miner{}
 	var ids [][]byte
@@ -460,7 +501,7 @@ func (c20) Exec(raw json.RawMessage, st *simrt.Stats, log *simrt.Log) *simrt.Vio
 			if byType == nil || byType.Stake != got.Stake || !bytes.Equal(byType.Account, got.Account) {
 				return viol(bi, "lookup-paths-disagree", "by-id-and-type", "miner %s: GetMiner and GetMinerById disagree", id[:10])
 			}
-			if other := mm.GetMinerById(idb, 1-m.typ, post); other != nil {
+			if other := mm.GetMinerById(idb, 1-m.typ, post); other != nil && !(p.Dual && id == common.ToHex(node.MinerID(3))) {
 				return viol(bi, "lookup-paths-disagree", "registered-under-both-types", "miner %s is registered under both miner types", id[:10])
 			}
 			byAcc := mm.GetMinerIdByAccount(common.FromHex(m.account), post)
